@@ -47,7 +47,7 @@ import argparse, itertools, json, os, random, sys, time
 ap = argparse.ArgumentParser(); ap.add_argument("--tier", default="quick"); ap.add_argument("--seed", type=int, default=0)
 ap.add_argument("--scenario"); args = ap.parse_args()
 T0 = time.time()
-DEADLINE = T0 + (30 if args.tier == "quick" else 780)
+DEADLINE = T0 + (30 if args.tier == "quick" else 720)
 
 from eliot import start_action, log_message, add_destinations, remove_destination, current_action, Action, MemoryLogger
 from eliot.parse import Parser, Task
@@ -608,12 +608,13 @@ def streams(world, col, rng, all_perms_upto, n_random_full):
     else:
         for _ in range(n_random_full):
             s = list(range(n)); rng.shuffle(s); seqs.append(s)
+    seen = set()
     for s in seqs:
         if col.bad >= MAX_BAD_NODES_PER_UNIT:
             return
         col.cases += 1
-        if len(s) > 1:
-            col.distinct += 1
+        if len(s) > 1 and tuple(s) not in seen:
+            col.distinct += 1; seen.add(tuple(s))
         problems = []; clauses = []
         try:
             check_stream(world, s, problems, clauses)
@@ -628,19 +629,22 @@ def streams(world, col, rng, all_perms_upto, n_random_full):
 
 def sampled(world, col, rng, k):
     """k seeded random full arrival orders, every prefix checked (for sizes beyond the exhaustive bound)."""
+    seen = set()
     for _ in range(k):
         if col.bad >= MAX_BAD_NODES_PER_UNIT:
             return
         order = list(range(world.n)); rng.shuffle(order)
-        run_order(world, col, order)
+        run_order(world, col, order, seen)
 
 
-def run_order(world, col, order):
+def run_order(world, col, order, seen=None):
     parser = Parser(); gmask = 0; seq = []
     for g in order:
         seq.append(g); col.cases += 1
-        if len(seq) > 1:
+        if len(seq) > 1 and (seen is None or tuple(seq) not in seen):
             col.distinct += 1
+            if seen is not None:
+                seen.add(tuple(seq))
         gmask |= 1 << g
         problems = []; clauses = []
         try:
@@ -747,7 +751,9 @@ def plan(tier, seed):
         for st in sts:
             d = covering_decorations(st, 1, rng)[0]
             units.append(dict(shapes=[decorate(st, d)], mode="sample", k=P["sample_k"], streams=False, seed=rng.randrange(1 << 30), n=n))
-    units.sort(key=lambda u: u["n"])      # stable: small first, so a deadline can only cut the largest
+    # stable order: exhaustive walks by size, the seeded samples before the largest walks, so that the time budget
+    # can only cut the largest exhaustive walks (reported in "bound" if it happens)
+    units.sort(key=lambda u: (u["n"] if u["mode"] == "walk" and u["n"] <= 7 else (7.5 if u["mode"] == "sample" else u["n"])))
     return P, units
 
 
@@ -768,13 +774,19 @@ def describe_bound(P, skipped, units):
             ", ".join("%d at %d messages" % (P["cover_k"][n], n) for n in range(P["full_deco_upto"] + 1, P["cover_upto"] + 1)),
             P["pair_total"], P["pair_k"], P["triple_total"], " and ".join(map(str, P["sample_sizes"])), P["sample_k"]))
     if skipped:
-        s += " TRUNCATED: %d of %d work units (the largest ones) were skipped because the time budget ran out." % (skipped, len(units))
+        cats = {}
+        for u, sk in zip(units, skipped):
+            key = ("exhaustive walk" if u["mode"] == "walk" else "seeded sample", len(u["shapes"]), u["n"])
+            c = cats.setdefault(key, [0, 0]); c[1] += 1; c[0] += sk
+        s += (" TRUNCATED BY THE TIME BUDGET (machine load): not run were " +
+              "; ".join("%d of the %d work units '%s, %d task(s), %d messages'" % (c[0], c[1], k[0], k[1], k[2]) for k, c in sorted(cats.items()) if c[0]) +
+              " (a walk over >= %d messages is %s work units, one per first message); everything else stated above was run in full." % (P["split_from"], "that many"))
     return s
 
 
 RULE = ("a scenario is (set of decorated task shapes, ordered arrival of a subset of their messages); shapes are enumerated exhaustively by message count, "
         "arrivals as the nodes of the permutation tree (prefix-sharing walk on the persistent Parser) and as parse_stream inputs; every scenario is checked after its last message "
-        "against an oracle computed from the shapes alone; cases = scenarios run, distinct = scenarios with at least two messages (all are pairwise different)")
+        "against an oracle computed from the shapes alone; cases = scenarios run (one per walk node / sampled prefix / parse_stream input), distinct = pairwise different scenarios (per entry point) with at least two messages")
 
 
 def emit_result(cases, distinct, fails, bound):
@@ -836,10 +848,10 @@ def main():
     else:
         results = [run_unit(u) for u in units]
     cases = sum(r["cases"] for r in results); distinct = sum(r["distinct"] for r in results)
-    skipped = sum(r["skipped"] for r in results)
+    skipped = [r["skipped"] for r in results]
     fails = [f for r in results for f in r["fails"]]
-    sys.stderr.write("c09: %d units, %d cases, %.1fs, %d processes, %d skipped\n" % (len(units), cases, time.time() - T0, nproc, skipped))
-    emit_result(cases, distinct, fails, describe_bound(P, skipped, units))
+    sys.stderr.write("c09: %d units, %d cases, %.1fs, %d processes, %d skipped\n" % (len(units), cases, time.time() - T0, nproc, sum(skipped)))
+    emit_result(cases, distinct, fails, describe_bound(P, skipped if any(skipped) else None, units))
 
 
 main()
